@@ -1068,6 +1068,78 @@ example : alignOp 13 1 = .ok 13 := by decide
 example : alignOp 13 3 = .fail := by decide
 example : alignOp 13 0 = .fail := by decide
 
+theorem nat_align (l k : Nat) (hl : l < 2 ^ 32) (hk : k < 32) :
+    l &&& ((2 ^ 32 - 1) ^^^ (2 ^ k - 1)) = l - l % 2 ^ k := by
+  have h2 : l - l % 2 ^ k = 2 ^ k * (l / 2 ^ k) := by
+    have := Nat.div_add_mod l (2 ^ k); omega
+  rw [h2]
+  apply Nat.eq_of_testBit_eq
+  intro i
+  rw [Nat.testBit_and, Nat.testBit_xor, Nat.testBit_two_pow_sub_one, Nat.testBit_two_pow_sub_one,
+    Nat.testBit_two_pow_mul, Nat.testBit_div_two_pow]
+  by_cases hi : i < 32
+  · by_cases hik : i < k
+    · have hki : ¬ k ≤ i := by omega
+      simp [hi, hik, hki]
+    · have hki : k ≤ i := by omega
+      have h3 : i - k + k = i := by omega
+      simp [hi, hik, hki, h3]
+  · have hz : l.testBit i = false := Nat.testBit_lt_two_pow (by
+      calc l < 2 ^ 32 := hl
+        _ ≤ 2 ^ i := Nat.pow_le_pow_right (by omega) (by omega))
+    have hik : ¬ i < k := by omega
+    have hki : k ≤ i := by omega
+    have h3 : i - k + k = i := by omega
+    simp [hi, hik, hki, h3, hz]
+
+theorem pow2_table : ∀ k : Fin 32, isPow2 (UInt32.ofNat (2 ^ k.val)) = true ∧
+    (UInt32.ofNat (2 ^ k.val)).toNat = 2 ^ k.val ∧ UInt32.ofNat (2 ^ k.val) ≠ 0 := by decide
+
+/-- **align** — for a power of two `r = 2^k` (any of the 32), `l r @` is `l` truncated to a
+    multiple of `r`: `l - l mod r`. -/
+theorem align_spec (l r : UInt32) (k : Nat) (hk : k < 32) (hr : r.toNat = 2 ^ k) :
+    ∃ v, alignOp l r = .ok v ∧ v.toNat = l.toNat - l.toNat % 2 ^ k := by
+  have hrr : r = UInt32.ofNat (2 ^ k) := by
+    apply UInt32.toNat_inj.mp; rw [hr]; exact ((pow2_table ⟨k, hk⟩).2.1).symm
+  obtain ⟨hp, _, hne⟩ := pow2_table ⟨k, hk⟩
+  simp only at hp hne
+  rw [← hrr] at hp hne
+  have hlt : ¬ r.toNat < 1 := by rw [hr]; have := Nat.two_pow_pos k; omega
+  refine ⟨l &&& (0xffffffff ^^^ (r - 1)), ?_, ?_⟩
+  · unfold alignOp; simp [hne, hp, hlt]
+  · rw [UInt32.toNat_and, UInt32.toNat_xor]
+    have h1 : (r - 1).toNat = 2 ^ k - 1 := by
+      rw [UInt32.toNat_sub]
+      have : (1 : UInt32).toNat = 1 := rfl
+      rw [this, hr]
+      have hpos := Nat.two_pow_pos k
+      have hlt32 : 2 ^ k < 2 ^ 32 := Nat.pow_lt_pow_right (by omega) hk
+      omega
+    rw [h1]
+    have h2 : (0xffffffff : UInt32).toNat = 2 ^ 32 - 1 := by decide
+    rw [h2]
+    exact nat_align l.toNat k (UInt32.toNat_lt l) hk
+
+/-- a successful program reports its outputs through `set_caller_register`, exactly the defined
+    variables among the six, in the order `eip esp ebp ebx esi edi` — nothing is left to what the
+    walker forwards on its own -/
+theorem framedata_calls {names : List String} {i : SInfo} {expr : List Char} {w : Walker}
+    {c c' : Caller} {vs : Vars} (hi : i.thing = .prog expr)
+    (hv : finalVars expr i.info w = .ok vs)
+    (h : walkFramedata names i w c = .ok (true, c')) :
+    c'.log = c.log ++ outputs vs ∧ c'.clears = c.clears ++ names := by
+  simp only [walkFramedata, hi, evalWin, hv, Outcome.ok.injEq] at h
+  unfold runPlan at h
+  cases ha : applySets (clearAll names c) (outputs vs) with
+  | mk ok c1 =>
+    simp only [ha, Bool.and_true, Prod.mk.injEq] at h
+    obtain ⟨rfl, rfl⟩ := h
+    constructor
+    · rw [applySets_log ha]
+      have : (clearAll names c).log = c.log := clearAll_log names c
+      rw [this]
+    · rw [applySets_clears ha, clearAll_clears]
+
 /-! ## 11. non-vacuity: concrete instances of the hypothesis sets used above -/
 
 def exW : Walker :=
